@@ -32,7 +32,7 @@ from contracts.core_models import U, S, vec, width, bits, is_kind, INT
 from contracts.c05_convert import convert
 from specs import vhdl_expr as VX
 
-PROPS = ("C05", "C06", "C02")
+PROPS = ("C05", "C06", "C02", "C09")
 P2 = sym.pow2
 
 C.inline("cohdl._core._type_qualifier:TypeQualifierBase.decay")
